@@ -8,7 +8,10 @@ rationals, certifies the eigen-frame, and the results are compared (tensor, cert
 
 Oracle: a direct Python statement of the property on the implementation's outputs (distances, centre
 of mass, diagonal ascending inertia, sign convention, untouched fields, rigid copies, double
-orientation), with tolerances derived from the documented geometry rounding.
+orientation), with tolerances derived from the documented geometry rounding.  The inertia clauses (off-diagonal entries, ascending moments)
+are evaluated a second time per captured call with the tolerance PROVED for that call's certificate (Props/C16Approx.lean,
+inertia_diagonal_driver: B_off, B_diag computed by the driver from the exact residuals) plus the exact float_prep rounding term - see
+proved_bound_claims; the older ad-hoc slack 2e-13 (scale + 1) stays in base_claims, so the tighter of the two decides.
 
 Position in space: every case is also oriented from a FAR rigid copy (fresh rotation, translation of
 10^2.5 .. 10^6.5 bohr: axis-aligned, diagonal or generic direction), and ~15% of the cases have the
@@ -36,7 +39,8 @@ import numpy as np
 from common import Ctx, Finding, Outcome, err_class
 
 PROPERTY = "C16"
-LEAN_TARGETS = ["QcelVerif.Props.C16", "QcelVerif.Lemmas.OrientUnique", "QcelVerif.Props.C16Unique", "QcelVerif.Props.C16Masses", "QcelVerif.Driver.C16"]
+LEAN_TARGETS = ["QcelVerif.Props.C16", "QcelVerif.Lemmas.OrientUnique", "QcelVerif.Props.C16Unique", "QcelVerif.Props.C16Masses",
+                "QcelVerif.Model.OrientApprox", "QcelVerif.Lemmas.OrientApprox", "QcelVerif.Props.C16Approx", "QcelVerif.Driver.C16"]
 DRIVER = "QcelVerif/Driver/C16.lean"
 N = "QcelVerif.Orient."
 THEOREMS = [
@@ -72,11 +76,34 @@ THEOREMS = [
     (N + "wsum_center_other", "centring with masses ms, weighing with OTHER masses ms' (one per atom, total /= 0): sum m'_i (x_i - c_ms) = (sum m') (c_ms' - c_ms)"),
     (N + "orient_com_other_masses", "stale frame: out = geometry oriented with masses ms (V Vt = 1); for any other masses ms' the ms'-weighted sum of out is 0 IFF the centre of mass of the input under ms' equals the one under ms (so the com clause evaluated with a molecule's OWN masses exposes a frame computed for another isotopologue whenever the two centres differ)"),
     (N + "stale_frame_witness", "concrete exact-rational witness (kernel-evaluated test): H-H-H on a line, frame for masses [1,1,1] is centred for [1,1,1] and not for the isotopologue [2,1,1]"),
+    # ---- Props/C16Approx.lean: the same conclusions for the APPROXIMATE certificates the driver actually has (explicit bounds, any ordered field)
+    (N + "orient_com_approx", "centre of mass needs NO certificate: for any residuals (any V) the mass-weighted sum of the oriented coordinates is exactly 0 in the model (rounding of the weighted mean is outside the model)"),
+    (N + "inertia_defect", "for ANY V (any commutative ring, any atoms): inertia(xV) = Vt inertia(x) V + (sum m p(VVt-1)pt) 1 - (sum m |p|^2)(VtV-1); inertia_transforms is the case of zero defect"),
+    (N + "inertia_flip", "whole-column sign flips (a^2 = b^2 = c^2 = 1) conjugate the tensor by diag(a,b,c): |I_ab| and I_aa are unchanged by the phase loop"),
+    (N + "inertia_rotated_approx", "max|VtV-1| <= ea, max|VVt-1| <= eb, max|Vt T V - diag l| <= e2 -> tensor I of the ROTATED geometry: |I_aa - l_a| <= e2 + (3 eb + ea) S, |I_ab| <= e2 + ea S, S = sum |m_i| |p_i|^2"),
+    (N + "inertia_diagonal_approx", "same three residual bounds for the tensor handed to eigh, orientCore = ok out -> inertia tensor of the ORIENTED geometry out (recomputed from the rotated, phased coordinates): |I_aa - l_a| <= B_diag = e2 + (3 eb + ea) S, |I_ab| <= B_off = e2 + ea S (a /= b), I symmetric; S = sum |m_i| |x_i - c|^2; no exactness, any masses"),
+    (N + "inertia_diagonal_maxAbs", "max-entry-norm form: max|I(out) - diag l| <= B_diag"),
+    (N + "inertia_diagonal_of_cert", "from the certificate function the driver evaluates at ANY tolerances: isEigFrame T V l eo ed = true -> |I_aa - l_a| <= ed + 4 eo S, |I_ab| <= ed + eo S, l ascending"),
+    (N + "inertia_diagonal_driver", "for exactly the numbers the driver prints per call (inertiaBounds = (S, B_off, B_diag) from the call's own exact residuals): |I_ab(out)| <= B_off and |I_aa(out) - l_a| <= B_diag with no hypothesis on V or l at all"),
+    (N + "absS_half_trace", "non-negative masses: 2 S = trace of the tensor handed to eigh, so the bounds are functions B(e1, e2, tr T)"),
+    (N + "cert_entries", "the third residual entry by entry (Gershgorin data): diagonal of Vt T V within e2 of l, off-diagonal within e2 of 0"),
+    (N + "moments_ascending_approx", "residual bounds + l ascending -> moments of the oriented geometry ascend up to 2 B_diag (I_xx <= I_yy + 2B, I_yy <= I_zz + 2B), strictly when consecutive l are more than 2 B_diag apart"),
+    (N + "eigenvalue_near_certified_partial", "PARTIAL: T (V w) = mu (V w), w /= 0, max|VtV-1| <= ea, max|VtTV - diag l| <= e2 -> mu within 3 (e2 + |mu| ea) of one of the certified l (every eigenvalue with an eigenvector in the range of V; surjectivity of V for small residuals not proved)"),
+    (N + "approxFrame_of_cert", "isEigFrame T V l eo ed = true -> ApproxFrame T V l eo ed (the three residual bounds; the hypothesis form of the uniqueness theorems)"),
+    (N + "approxFrame_of_exact", "an exact eigen-frame (Orth V, Vt T V = diag l) is an ApproxFrame at tolerances 0, 0"),
+    (N + "overlap_offdiag_approx", "two approximate eigen-frames (V,l) of T and (V',l') of T' (residuals e1, e2; max|T|, max|T'| <= tau; max|T-T'| <= theta): every entry of M = Vt V' satisfies |(l_i - l'_j) M_ij| <= (1+e1)(6 e2 + 3 theta + 18 tau e1) (exact frames: = 0)"),
+    (N + "eigframe_unique_approx", "QUANTITATIVE eigen-frame uniqueness (3x3, explicit constants): as above with moments separated by gamma > 0 (|l_i - l'_j| >= gamma, i /= j) -> signs d_i in {1,-1} with max|V' - V diag(d)| <= frameBound(e1, delta/gamma) = (1+e1)(kappa + 2 eta + 3 e1), eta = delta/gamma, kappa = e1 + 3 e1 (1+e1) + 2 eta^2: O(eps/gap); equals 0 for exact certificates"),
+    (N + "second_pass_frame_approx_partial", "PARTIAL (frame level): out oriented with residuals (ea, eb, e2); ANY approximate eigen-frame (V2,l2) of the tensor of out with tolerances (e1, E2 >= B_diag), moments separated from l by gamma -> V2 = diag(+-1) within frameBound(e1, overlapDelta(e1,E2,tau,0)/gamma); geometry-level idempotence up to a bound additionally needs stable phase decisions (not proved)"),
+    (N + "eigframe_rigid_approx_partial", "PARTIAL (frame level): y = xR + t, R exactly orthogonal; approximate eigen-frames (V,l) for x and (V',l') for y, gap gamma -> max|R V' - V diag(d)| <= frameBound(3 e1, overlapDelta(3 e1, e2, tau, 0)/gamma); equality of the two oriented geometries up to a bound additionally needs stable phase decisions (not proved)"),
 ]
 TRUSTED_BASE = [
     "Lean 4.33 kernel + Mathlib (ring/linear_combination/order lemmas); axioms per theorem audited on every run",
     "hand-written model Model/Orient.lean of molecule.py:1074-1152, 381-384, 564-568, 60-68, tied by differential correspondence on every captured eigh call",
-    "numpy.linalg.eigh is NOT trusted: its output is certified per call (VtV, VVt, VtTV, order) exactly in rationals by the driver; the theorems assume the exact versions of the certified relations",
+    "numpy.linalg.eigh is NOT trusted: its output is certified per call (VtV, VVt, VtTV, order) exactly in rationals by the driver. The theorems of Props/C16.lean, C16Unique.lean assume the exact versions "
+    "of the certified relations; those of Props/C16Approx.lean assume only the certified residual bounds themselves (distances: isometry_approx; inertia tensor / moments: inertia_diagonal_driver; "
+    "eigen-frame uniqueness: eigframe_unique_approx) and the driver prints the resulting bounds B_off, B_diag per call (Model/OrientApprox.lean inertiaBounds, evaluated in exact rationals)",
+    "the oracle clauses 'inertia off-diagonal' and 'moments ascending' now ALSO run with tolerance = that proved bound + the exact rounding term of float_prep + the stated floating-point allowance "
+    "4e-15 (1 + max|x|) per coordinate (harness proved_bound_claims; tensor of the output evaluated exactly in integers); the floating-point allowance itself remains an assumption about numpy arithmetic",
     "numpy elementwise IEEE arithmetic (compared with the exact rational value under stated tolerances), np.around = rint(x*10^k)/10^k",
     "harness/c16.py generators, tolerances and the Python oracle",
     "call-sequence stream: CPython object identity / numpy buffer semantics (one caller-owned geometry buffer reused for every constructor / from_data call; "
@@ -84,8 +111,13 @@ TRUSTED_BASE = [
 ]
 ASSUMPTIONS = [
     "validated molecules of 1-12 atoms (plus a 12-case unvalidated stream with zero total mass to exercise the ZeroDivisionError branch of the model; no oracle demand there)",
-    "theorems are over exact fields: orthogonality and diagonalisation of V are hypotheses, certified per call to ~1e-15; floating-point error of the implementation is covered by the correspondence tolerances only",
-    "uniqueness claims (rigid copies, double orientation) are demanded for asymmetric tops with relative gaps between consecutive moments >= 1e-3; eigen-frame uniqueness is proved (eigframe_unique / eigvals_unique) for EXACT certificates with pairwise distinct moments and used in orient_rigid_invariant / orient_idempotent; a quantitative (perturbation) version for the ~1e-15 certified residuals is not proved",
+    "theorems are over exact (ordered) fields. With EXACT certificates (Orth V, Vt T V = diag l): everything in Props/C16.lean, C16Unique.lean. With the APPROXIMATE certificates the driver has "
+    "(residuals ~1e-15, explicit bounds, Props/C16Approx.lean): centre of mass (exact, no certificate needed), distances (isometry_approx: 3 eps |p-q|^2), diagonal inertia tensor and moments = l "
+    "(inertia_diagonal_approx / _driver: B_off = e2 + ea S, B_diag = e2 + (3 eb + ea) S), ascending order up to 2 B_diag, closeness of eigenvalues reachable through V to the certified l (partial), and "
+    "uniqueness of the eigen-frame up to signs within O(eps/gap) (eigframe_unique_approx; second pass and rigid copies at the level of FRAMES). NOT proved for approximate certificates: the geometry-level "
+    "rigid-invariance / idempotence statements (they need the phase decisions to be stable under the O(eps/gap) perturbation; the harness checks that per case with a first-order bound) and anything about "
+    "floating-point arithmetic of the implementation, which stays covered by the correspondence tolerances only",
+    "uniqueness claims (rigid copies, double orientation) are demanded for asymmetric tops with relative gaps between consecutive moments >= 1e-3; eigen-frame uniqueness is proved (eigframe_unique / eigvals_unique) for EXACT certificates with pairwise distinct moments and used in orient_rigid_invariant / orient_idempotent; the quantitative (perturbation) version for the ~1e-15 certified residuals is proved at the level of frames (eigframe_unique_approx: max|V' - V diag(+-1)| <= frameBound(e1, delta/gap)) - for the residuals seen in practice (e1 ~ 2e-15, e2 ~ 1.5e-15 scale, tau <= scale) and the relative gap >= 1e-3 demanded here that bound is ~1e-10 per frame entry - but is not yet propagated to the oriented coordinates, so the oracle's rigid-copy / idempotence tolerances (perturb_bounds: first order, factor 2) remain harness-derived",
     "'within the geometry rounding' = float_prep as implemented: rounding to 1e-8 and flushing |x| < 5^-9 = 5.12e-7 to zero",
     "call sequences: orientation is taken to be a function of the molecule it is applied to - every call in a sequence of related molecules made in one process must "
     "satisfy the property with that molecule's own masses, coordinates and fields; the caller's arguments, the unoriented molecule and molecules returned earlier must "
@@ -117,20 +149,27 @@ RULE = (
     "earlier) are shuffled and interleaved; one unoriented Molecule per member serves all its orient_molecule() calls; one geometry buffer per atom count is overwritten "
     "and passed to every ctor/from_data call. Every call is a model line and is judged by the oracle with its own molecule's masses/fields: distances, centre of mass, "
     "diagonal ascending inertia, fields, sign convention (deciders from the geometry_noise=14 call on the same input), arguments / unoriented molecule / earlier results "
-    "unmodified, repeated orientation of bit-identical input equal (asymmetric tops). Distinct by (shape, n, set of variations, number of calls)."
+    "unmodified, repeated orientation of bit-identical input equal (asymmetric tops). Distinct by (shape, n, set of variations, number of calls). "
+    "Every model line additionally carries the proved bounds (S, B_off, B_diag) of that call; for every validated call the exact inertia tensor of the implementation's output is compared with them "
+    "(off-diagonal <= B_off + rounding term; consecutive moments descend by at most 2 B_diag + rounding terms; moments within B_diag + rounding term of the eigenvalues eigh returned)."
 )
 LEVEL_TEXT = (
     "proof (partial): centring, isometry, tensor transformation law, diagonal tensor with the certified eigenvalues as moments, the exact "
     "behaviour of the phase loop and untouched fields are proved for all inputs over any (ordered) field; idempotence and rigid invariance "
     "are proved in exact arithmetic for any two exact eigen-frame certificates, under the property's own qualifiers (pairwise distinct "
     "principal moments, an off-plane atom in every column); eigen-frame uniqueness is proved, not assumed. eigh is a parameter "
-    "certified per call; floating point is tied by tolerance-based correspondence, not proved. That the result depends on nothing but the molecule is "
+    "certified per call, and for the certificates it actually gets (residuals ~1e-15, not 0) explicit-bound versions are proved for every conclusion that is continuous in the certificate: "
+    "centre of mass (independent of it), distances, diagonal inertia tensor with the eigenvalues as moments (bounds B_off, B_diag printed per call and used as the oracle's tolerance), ascending order up to 2 B_diag, "
+    "and eigen-frame uniqueness up to signs within O(residual/gap) (frame level only: propagation to the oriented coordinates through the phase loop is not proved); "
+    "floating point is tied by tolerance-based correspondence, not proved. That the result depends on nothing but the molecule is "
     "true of the model by construction (a pure function; orient_com_other_masses says when a frame computed for other masses would still pass); of the implementation "
     "it is only TESTED, on sampled call sequences within one process."
 )
 TECHNIQUE = "Lean 4 proof over generic fields + per-call eigen-frame certificate + exact-rational differential correspondence + Python oracle"
 
 _CERT = {"orth": 0.0, "diag_rel": 0.0}
+# proved-bound oracle (Props/C16Approx.lean: inertia_diagonal_driver): largest observed |quantity| / tolerance, and the size of the proved bound
+_PB = {"off": 0.0, "asc": 0.0, "mom": 0.0, "Bo_rel": 0.0, "Bd_rel": 0.0, "off14": 0.0, "slack_over_Bo": float("inf")}
 NOISE = 1e-8
 FLUSH8 = 5.0 ** -9
 ISO = {"H": [2, 3], "C": [13, 14], "N": [15], "O": [17, 18], "F": [18], "S": [33, 34, 36], "Cl": [37], "Br": [81], "Li": [6], "B": [10], "Ne": [22], "Si": [29, 30]}
@@ -599,6 +638,93 @@ def _plain(v):
 
 
 # --------------------------------------------------------------------------------------
+# oracle clauses whose tolerance is the PROVED bound printed by the driver (field B of the model line)
+#
+# Props/C16Approx.lean `inertia_diagonal_driver`: for the call's own exact residuals r = (|VtV-1|, |VVt-1|, |VtTV-diag l|) and
+# S = sum |m_i| |x_i - c|^2, the inertia tensor I of the model's oriented geometry g (exact, before float_prep; any column signs)
+# satisfies |I_ab| <= B_off = r3 + r1 S (a /= b) and |I_aa - l_a| <= B_diag = r3 + (3 r2 + r1) S.  The implementation's output `out`
+# is float_prep(g) up to the stated floating-point allowance, |out - g| <= e = coord_err (half a unit of 10^-d, or the flush band
+# where out == 0, plus 4e-15 (1 + max|x|)); hence, exactly,
+#     |I_ab(out)|        <= B_off  + sum |m| (|out_a| e_b + |out_b| e_a + e_a e_b)
+#     |I_aa(out) - l_a|  <= B_diag + sum |m| sum_{k /= a} (2 |out_k| e_k + e_k^2)
+#     I_aa(out) <= I_bb(out) + 2 B_diag + (both rounding terms)          for consecutive a < b, l certified ascending.
+# The tensor of `out` is evaluated EXACTLY (integers: every double times 2^1074), so no allowance for the oracle's own arithmetic.
+# These clauses are in addition to base_claims (whose ad-hoc slack 2e-13 (scale + 1) stays as it was): the tighter one decides.
+
+_SH = 1074
+
+
+def _sint(v, k=1):
+    """the double v times 2**(1074 k) as an exact integer (the denominator of a double is a power of two <= 2**1074)"""
+    n, dd = float(v).as_integer_ratio()
+    return n * ((1 << (_SH * k)) // dd)
+
+
+def proved_bound_claims(tag, m, G, out, d, w, B30, asc):
+    """returns list of (kind, message); kinds 'oracle:*' are property violations, 'mismatch:*' a broken tie"""
+    bad = []
+    S30, Bo30, Bd30 = B30
+    up = 1.0 + 1e-9
+    Bo, Bd = Bo30 / 1e30 * up, Bd30 / 1e30 * up
+    m = np.asarray(m, dtype=float)
+    n = len(m)
+    c = (m[:, None] * G).sum(0) / m.sum()
+    L = max(float(np.abs(G - c).max()), float(np.abs(G).max())) if n else 0.0
+    e = coord_err(out, d, L) + 2e-20  # 2e-20: the model geometry is printed as floor(y 1e20); then |out - g| <= e is exactly what the per-coordinate tie verifies
+    A = np.abs(out)
+    am = np.abs(m)
+    mi = [_sint(v) for v in m]
+    X = [[_sint(v) for v in out[:, k]] for k in range(3)]
+    den = 1 << (3 * _SH)
+    scale = float(np.sum(am * (out * out).sum(1)))
+    slack_old = 2e-13 * (scale + 1.0)
+    _PB["Bo_rel"] = max(_PB["Bo_rel"], Bo / (scale + 1.0))
+    _PB["Bd_rel"] = max(_PB["Bd_rel"], Bd / (scale + 1.0))
+    if Bo > 0:
+        _PB["slack_over_Bo"] = min(_PB["slack_over_Bo"], slack_old / Bo)
+    # off-diagonal entries against B_off
+    for a in range(3):
+        for b in range(a):
+            Tab = -sum(mm * x * y for mm, x, y in zip(mi, X[a], X[b]))
+            rnd = float(np.sum(am * (A[:, a] * e[:, b] + A[:, b] * e[:, a] + e[:, a] * e[:, b])))
+            tol = (Bo + rnd) * up
+            ti = _sint(tol, 3)
+            if ti > 0:
+                r = abs(Tab) / ti
+                _PB["off"] = max(_PB["off"], r)
+                if d == 14:
+                    _PB["off14"] = max(_PB["off14"], r)
+            if abs(Tab) > ti:
+                bad.append(("oracle:inertia_offdiag", f"{tag}: I[{a}{b}] = {abs(Tab) / den!r} exceeds the PROVED bound B_off = {Bo:.3e} (certified residuals, Props/C16Approx.lean) "
+                            f"+ rounding term {rnd:.3e} of geometry_noise={d} (the ad-hoc slack of the plain clause would be {slack_old:.3e})"))
+    # diagonal entries against the eigenvalues eigh returned, and their order
+    Taa, drnd = [], []
+    for a in range(3):
+        others = [k for k in range(3) if k != a]
+        Taa.append(sum(mm * (X[others[0]][i] ** 2 + X[others[1]][i] ** 2) for i, mm in enumerate(mi)))
+        drnd.append(float(np.sum(am * sum(2 * A[:, k] * e[:, k] + e[:, k] ** 2 for k in others))))
+    for a in range(3):
+        tol = (Bd + drnd[a]) * up
+        ti = _sint(tol, 3)
+        dev = abs(Taa[a] - _sint(w[a], 3))
+        if ti > 0:
+            _PB["mom"] = max(_PB["mom"], dev / ti)
+        if dev > ti:
+            bad.append(("mismatch:moments", f"{tag}: moment I[{a}{a}] = {Taa[a] / den!r} of the implementation's oriented geometry differs from the eigenvalue {float(w[a])!r} eigh returned "
+                        f"by {dev / den:.3e} > PROVED B_diag = {Bd:.3e} + rounding term {drnd[a]:.3e}"))
+    if asc == 1:
+        for a in range(2):
+            tol = (2 * Bd + drnd[a] + drnd[a + 1]) * up
+            ti = _sint(tol, 3)
+            if ti > 0 and Taa[a] > Taa[a + 1]:
+                _PB["asc"] = max(_PB["asc"], (Taa[a] - Taa[a + 1]) / ti)
+            if Taa[a] - Taa[a + 1] > ti:
+                bad.append(("oracle:moments_ascending", f"{tag}: I[{a}{a}] = {Taa[a] / den!r} > I[{a+1}{a+1}] = {Taa[a + 1] / den!r} by more than the PROVED 2 B_diag = {2 * Bd:.3e} "
+                            f"+ rounding terms {drnd[a] + drnd[a + 1]:.3e}"))
+    return bad
+
+
+# --------------------------------------------------------------------------------------
 # correspondence of one captured call
 
 
@@ -609,13 +735,16 @@ def tie_call(tag, d, masses, gin, call, out_geom, line):
     if line.startswith("err") or line == "bad-op":
         return [("mismatch", f"{tag}: model says {line!r}, implementation returned a geometry")], False
     parts = line.split("|")
-    if len(parts) != 6 or parts[0] != "ok":
+    if len(parts) != 7 or parts[0] != "ok":
         return [("mismatch", f"{tag}: unparsable model line {line[:80]!r}")], False
     K = [int(x) for x in parts[1].split()]
     Y = [int(x) for x in parts[2].split()]
     S = parts[3].split()
     R = [int(x) for x in parts[4].split()]
     Tm = [int(x) for x in parts[5].split()]
+    B30 = [int(x) for x in parts[6].split()]
+    if len(B30) != 3:
+        return [("mismatch", f"{tag}: model returned {len(B30)} bound fields")], False
     n = len(masses)
     if len(K) != 3 * n or len(Y) != 3 * n:
         return [("mismatch", f"{tag}: model returned {len(K)} coordinates for {n} atoms")], False
@@ -642,6 +771,10 @@ def tie_call(tag, d, masses, gin, call, out_geom, line):
     _CERT["diag_rel"] = max(_CERT["diag_rel"], rd / scale)
     if ro > 1e-13 or ro2 > 1e-13 or rd > 1e-12 * scale or asc != 1:
         bad.append(("mismatch:certificate", f"{tag}: eigen-frame certificate fails against the model tensor: |VtV-1|={ro:.2e} |VVt-1|={ro2:.2e} |VtTV-diag|={rd:.2e} (scale {scale:.2e}) ascending={asc}"))
+    # the property's inertia clauses with the PROVED tolerance for this call's certificate (independent of the phase decisions:
+    # column signs change neither |I_ab| nor I_aa), validated molecules only
+    if tag != "zero_mass":
+        bad += proved_bound_claims(tag, m, np.asarray(gin, dtype=float), np.asarray(out_geom, dtype=float).reshape(-1, 3), d, w, B30, asc)
     # knife edges of the phase decision
     knife = False
     for col in range(3):
@@ -926,8 +1059,12 @@ def tie_cases(ctx, out: Outcome, cases):
         if knife:
             out.count("knife:model_phase")
         pub = {kk: v for kk, v in case.items() if kk != "_calls"}
+        if tag != "zero_mass" and not line.startswith("err") and line != "bad-op":
+            out.count("proved_bound_clauses_checked")
         for kind, msg in bad:
-            out.mismatches.append(Finding(kind, pub, observed=msg, detail=msg))
+            if "PROVED" in msg or kind == "mismatch:moments":
+                out.count("proved_bound_fired:" + kind)
+            (out.violations if kind.startswith("oracle:") else out.mismatches).append(Finding(kind, pub, observed=msg, detail=msg))
     for case in cases:
         case.pop("_calls", None)
 
@@ -1382,6 +1519,10 @@ def run(ctx: Ctx) -> Outcome:
         zero_mass_stream(ctx, out)
     out.exhaustive = False
     out.notes.append("largest eigen-frame certificate residuals this run (exact rational evaluation): max|VtV-1|,|VVt-1| = %.3e; max|VtTV-diag(l)|/scale = %.3e (limits 1e-13, 1e-12)" % (_CERT["orth"], _CERT["diag_rel"]))
+    out.notes.append("proved-bound oracle (B_off, B_diag printed by the driver; Props/C16Approx.lean inertia_diagonal_driver): largest |I_ab(out)| / (B_off + rounding) = %.3f "
+                     "(geometry_noise=14 calls: %.3f), largest |I_aa(out) - l_a| / (B_diag + rounding) = %.3f, largest descent / (2 B_diag + rounding) = %.3f (all must be <= 1); "
+                     "largest B_off/(scale+1) = %.2e, B_diag/(scale+1) = %.2e; the ad-hoc slack 2e-13 (scale+1) of the plain clause is at least %.1f x B_off"
+                     % (_PB["off"], _PB["off14"], _PB["mom"], _PB["asc"], _PB["Bo_rel"], _PB["Bd_rel"], _PB["slack_over_Bo"]))
     c = out.distribution
     out.notes.append("position in space: every case is also oriented from a far rigid copy (second rotation, |t| log-uniform in 10^2.5..10^6.5 bohr) and ~15%% of the "
                      "primaries are themselves that far from the origin; all base claims are demanded of the far copy and, for asymmetric tops, equality with the "
